@@ -296,6 +296,15 @@ func oracleC05(r *RunCtx, rec *BlockRecord, t *TxInfo) {
 			r.Cross["c05:gas_wanted_ne_limit"]++
 		}
 	}
+	if !t.HasReceipt && t.Res != nil && t.Res.Code != 0 {
+		// failed outside EVM execution: the sender pays for the full gas limit (decided below). What ExecTxResult.GasUsed
+		// shows for such a tx is not constrained by the statement (on this tree: the limit, the Cosmos meter's reading
+		// when the block gas meter stopped it, or 0 after a recovered panic) and is recorded only
+		r.Probe("c05_failed_outside_evm_gas_limit_above_block_gas", rec.MaxGas > 0 && tx.Gas() > uint64(rec.MaxGas))
+		if g := uint64(t.Res.GasUsed); g != tx.Gas() {
+			r.Cross["c05:failed_outside_evm_result_gas_ne_limit"]++
+		}
+	}
 	// sender delta = -(gasUsed x price) - value out (+ inflows, none in arms that run this exact law)
 	if r.Script != nil && r.Script.Extra["exact_sender"] == "1" {
 		from := t.From
